@@ -72,26 +72,27 @@ func infoOf(fn *ssa.Function) *fnInfo {
 
 // Interp is the per-worker interpreter state.
 type Interp struct {
-	prog      *ssa.Program
-	w         *Worker
-	p         *Path
-	globals   map[*ssa.Global]*value
-	pkgState  map[*ssa.Package]int // 0 untouched, 1 initialised, 2 skipped
-	dirty     bool                 // a global was stored to during a path
-	inInit    bool
-	onceDone  map[*value]bool
-	oncePath  []*value
-	stubs     map[string]*ssa.Function
-	errType   types.Type // runtime error type used for runtime panics
-	depth     int
-	mapPerm   bool
-	traceOn   bool
-	typeCache map[string]types.Type
-	hostTypes map[reflect.Type]types.Type
-	funcsSeen map[*ssa.Function]bool
-	tokenSeq  int
-	curFrame  *frame
-	syncMaps  map[*value]*omap
+	prog        *ssa.Program
+	w           *Worker
+	p           *Path
+	globals     map[*ssa.Global]*value
+	pkgState    map[*ssa.Package]int // 0 untouched, 1 initialised, 2 skipped
+	dirty       bool                 // a global was stored to during a path
+	inInit      bool
+	onceDone    map[*value]bool
+	oncePath    []*value
+	stubs       map[string]*ssa.Function
+	errType     types.Type // runtime error type used for runtime panics
+	depth       int
+	mapPerm     bool
+	traceOn     bool
+	typeCache   map[string]types.Type
+	hostTypes   map[reflect.Type]types.Type
+	funcsSeen   map[*ssa.Function]bool
+	tokenSeq    int
+	curFrame    *frame
+	syncMaps    map[*value]*omap
+	initSkipped []string
 }
 
 type deferred struct {
@@ -773,6 +774,20 @@ func callSSA(i *Interp, caller *frame, callpos token.Pos, fn *ssa.Function, args
 		if !i.funcsSeen[fn] {
 			i.funcsSeen[fn] = true
 		}
+	}
+	if i.inInit && strings.HasPrefix(fn.Name(), "init#") && fn.Parent() == nil {
+		// A user init function that reaches un-modelled territory (cobra command
+		// trees, ORM runtime hooks) is abandoned; what it would have set up stays
+		// unset and is reported in the result (init_skipped).
+		defer func() {
+			if r := recover(); r != nil {
+				if ap, ok := r.(abortPath); ok && ap.kind == "unsupported" {
+					i.initSkipped = append(i.initSkipped, fnPkgPath(fn)+"."+fn.Name()+": "+ap.reason)
+					return
+				}
+				panic(r)
+			}
+		}()
 	}
 	fi := infoOf(fn)
 	fr.info = fi
